@@ -6,7 +6,9 @@
 package main
 
 import (
+	"bytes"
 	"encoding/json"
+	"os/exec"
 	"flag"
 	"fmt"
 	"os"
@@ -180,11 +182,15 @@ func main() {
 	out := flag.String("out", "", "result file")
 	replay := flag.String("replay", "", "replay file (re-run only the recorded failures)")
 	scenario := flag.String("scenario", "", "(internal) run one life-cycle scenario in this process and print its result")
+	inproc := flag.Bool("inproc", false, "(internal) run the property in this process; without it the run happens in a child so that a crash of the library is a result, not a broken harness")
 	flag.Parse()
 	_ = replay
 	if *scenario != "" {
 		childMain(*scenario)
 		return
+	}
+	if !*inproc && *prop != "" {
+		os.Exit(superviseChild(*prop, *tier, *seed, *out))
 	}
 	f, ok := props[*prop]
 	if !ok {
@@ -216,3 +222,67 @@ func main() {
 }
 
 func itoa(i int) string { return strconv.Itoa(i) }
+
+// Journal records what is about to be run, so that if the library crashes the
+// process the supervisor can name the case in flight.
+func (c *Ctx) Journal(desc string) {
+	if p := os.Getenv("VERIF_JOURNAL"); p != "" {
+		os.WriteFile(p, []byte(desc), 0o644)
+	}
+}
+
+// superviseChild runs the property in a child process. A child that dies
+// (unrecovered panic or fatal error in library goroutines) is reported as a
+// violation with the crash trace and the journalled case as replay.
+func superviseChild(prop, tier string, seed uint64, out string) int {
+	journal := out + ".journal"
+	if out == "" {
+		journal = fmt.Sprintf("/tmp/corr-journal-%d", os.Getpid())
+	}
+	defer os.Remove(journal)
+	args := []string{"-inproc", "-prop", prop, "-tier", tier, "-seed", fmt.Sprint(seed)}
+	if out != "" {
+		args = append(args, "-out", out)
+	}
+	cmd := exec.Command(os.Args[0], args...)
+	var errb bytes.Buffer
+	cmd.Stdout = os.Stdout
+	cmd.Stderr = &errb
+	cmd.Env = append(os.Environ(), "VERIF_JOURNAL="+journal, "GOTRACEBACK=all")
+	err := cmd.Run()
+	os.Stderr.Write(tail(errb.Bytes(), 4000))
+	if err == nil {
+		return 0
+	}
+	if ee, ok := err.(*exec.ExitError); ok && (ee.ExitCode() == 2 || ee.ExitCode() == 3) && !bytes.Contains(errb.Bytes(), []byte("goroutine ")) {
+		return ee.ExitCode() // usage / driver errors of the harness itself
+	}
+	inflight, _ := os.ReadFile(journal)
+	trace := string(head(errb.Bytes(), 3000))
+	res := &Result{Property: prop, Tier: tier, Seed: seed, Rule: rules[prop], Distribution: map[string]int{"crash": 1},
+		Mismatches: []Failure{}, Samples: []interface{}{map[string]interface{}{"case": string(inflight), "tag": "crash"}},
+		Evaluations: 1, Distinct: 0,
+		SpecFailures: []Failure{{Kind: "crash", Desc: "the process running the library died while: " + string(inflight), Impl: trace,
+			Replay: map[string]interface{}{"op": "crash", "in_flight": string(inflight), "replay_cmd": fmt.Sprintf("harness/bin/corr -inproc -prop %s -tier %s -seed %d", prop, tier, seed)}}}}
+	b, _ := json.MarshalIndent(res, "", " ")
+	if out != "" {
+		os.WriteFile(out, b, 0o644)
+	} else {
+		os.Stdout.Write(b)
+	}
+	fmt.Fprintf(os.Stderr, "corr %s: the child process crashed (%v)\n", prop, err)
+	return 0
+}
+
+func head(b []byte, n int) []byte {
+	if len(b) > n {
+		return b[:n]
+	}
+	return b
+}
+func tail(b []byte, n int) []byte {
+	if len(b) > n {
+		return b[len(b)-n:]
+	}
+	return b
+}
